@@ -584,10 +584,11 @@ func (m *Model) buildWills() {
 		}
 		cp := c.Up[0].P
 		cause := m.EndCause(c)
-		if cause == "disconnect" && h.ServerCloseCall > 0 && c.UnreadAtServerClose > 0 {
+		if cause == "disconnect" && (h.ServerCloseCall > 0 && c.UnreadAtServerClose > 0 || c.LostAtReset > 0) {
 			// the DISCONNECT was sent, but the broker had not read all of the
-			// connection's bytes when it was told to shut down: it cannot know
-			// about the DISCONNECT, so its will is not judged either way
+			// connection's bytes when it was told to shut down, or a reset
+			// discarded them: it cannot know about the DISCONNECT, so its will
+			// is not judged either way
 			if src0, seq0, ok0 := identify(cp.WillMessage); ok0 {
 				m.ExemptWills[keyOf(src0, seq0)] = true
 			}
